@@ -203,7 +203,10 @@ where
         v.truncate(IN_LEN);
         match Data::try_new(v) {
             Ok(d) => Ok(Frame::new(Address(IN_ADDR), MsgType(IN_TYPE), d)),
-            Err(_) => panic!("try_new"),
+            Err(e) => {
+            core::mem::forget(e); // never drop an error value in a harness: its drop glue drags in every dyn Error
+            panic!("try_new")
+        }
         }
     }
 }
